@@ -105,6 +105,7 @@ structure St where
   outs : List Out := []
   arrivals : List Nat := []               -- ghost: futures of queued calls in arrival order
   started : List Nat := []                -- ghost: futures in the order they were handed to the batch function
+  batchLog : List (Nat × Nat) := []       -- ghost: (size, limit in force during assembly) of every batch started
   tie : Bool := false                     -- an input arrived at the very instant an internal event fired
   deriving Repr
 
@@ -225,7 +226,8 @@ def startBatch (fuel : Nat) (s : St) (items : List Item) (bound : Nat) : St :=
                      next := s.now + (script.head?.map (·.1)).getD 0, bound := bound }
   let s1 := { s with nb := s.nb + 1, seen := seen',
                      outs := s.outs ++ [Out.batch s.now s.nb (items.map Item.key)],
-                     started := s.started ++ items.map Item.fut }
+                     started := s.started ++ items.map Item.fut,
+                     batchLog := s.batchLog ++ [(items.length, bound)] }
   -- it occupies a slot from now on; `pump` may finish it at once
   match pump fuel { s1 with running := s1.running ++ [b] } b with
   | (s2, some b') => { s2 with running := s2.running.map fun x => if x.id == b'.id then b' else x }
